@@ -703,3 +703,43 @@ Example dispute_history_example :
 Proof. vm_compute. repeat split; try discriminate; repeat constructor; discriminate. Qed.
 
 End DisputeFrame.
+
+(* ================================================================================================ *)
+(*  Model/Mint.v (C03): what BeginBlocker hands to the bank is what the provision operation of         *)
+(*  Model/Escrow.v carries                                                                             *)
+(* ================================================================================================ *)
+Module MintFrame.
+Import Verif.Model.Mint.
+
+Lemma begin_block_split fx m now p t q m' :
+  begin_block fx m now = BBOk p t q m' -> t = p - Z.quot p 4 /\ q = Z.quot p 4.
+Proof.
+  unfold begin_block. destruct (negb (m_init m)); [intros H; inversion H; split; reflexivity|].
+  destruct (now =? zero_time); [intros H; inversion H; split; reflexivity|].
+  destruct (m_prev m) as [prev|]; [|intros H; inversion H; split; reflexivity].
+  destruct (calc_block_provision now prev) as [ | |p0] eqn:E; try discriminate.
+  unfold send_inflationary, split. cbn [fst snd].
+  destruct (p0 =? 0); [intros H; inversion H; split; reflexivity|].
+  destruct ((Z.quot p0 4 =? 0) || (p0 - Z.quot p0 4 =? 0)); [destruct fx|]; intros H; inversion H; split; reflexivity.
+Qed.
+
+(* a completed BeginBlocker and the provision operation of the escrow machine move the same amounts *)
+Lemma begin_block_is_escrow_mint fx m now p t q m' s s' :
+  begin_block fx m now = BBOk p t q m' -> Escrow.estep s (Escrow.EMint p) = Some s' ->
+  Escrow.e_supply s' = Escrow.e_supply s + p /\ Escrow.supply_delta s (Escrow.EMint p) = minted_of (begin_block fx m now) /\
+  Escrow.e_tbr s' = Escrow.e_tbr s + t /\ Escrow.e_feecoll s' = Escrow.e_feecoll s + q.
+Proof.
+  intros Hb He. destruct (begin_block_split _ _ _ _ _ _ _ Hb) as [-> ->]. rewrite Hb. cbn [minted_of].
+  unfold Escrow.supply_delta. rewrite He. cbn [Escrow.estep] in He.
+  destruct (0 <=? p); [|discriminate]. injection He as <-. cbn. repeat split; reflexivity.
+Qed.
+
+Example begin_block_is_escrow_mint_example :
+  exists m now s', begin_block true m now = BBOk 1700 1275 425 {| m_init := true; m_prev := Some now |} /\
+    Escrow.estep (Escrow.einit 10) (Escrow.EMint 1700) = Some s' /\ Escrow.e_supply s' = 1710.
+Proof.
+  exists {| m_init := true; m_prev := Some 1000000000 |}, (1000000000 + 1000000 * 1000), (Escrow.estep_total (Escrow.einit 10) (Escrow.EMint 1700)).
+  vm_compute. repeat split; reflexivity.
+Qed.
+
+End MintFrame.
